@@ -346,6 +346,15 @@ impl FeesWorld {
             };
             out += &format!(" u{}={} e{}={}", i + 1, p, i + 1, e);
         }
+        // the harness's own per-(week, token) ledgers (`record_frozen`: totals seen frozen in `totalRewardsForWeek`; `claim_oracle`:
+        // the payments of every claim, split by week with the harness's own recomputation and checked against what the real
+        // claim returned), ALL weeks, zero entries dropped, ascending; the model driver prints its ghosts `a.collected` /
+        // `a.paid` in the same format
+        let wtmap = |m: &BTreeMap<(u64, usize), BigUint>| -> String {
+            let v: Vec<String> = m.iter().filter(|(_, a)| !a.is_zero()).map(|((w, t), a)| format!("{}.{}:{}", w, t, a)).collect();
+            if v.is_empty() { "-".to_string() } else { v.join(",") }
+        };
+        out += &format!(" led=coll:{};paid:{}", wtmap(&self.collected), wtmap(&self.paid));
         out
     }
 
@@ -1223,18 +1232,22 @@ impl World for FeesWorld {
         let post = self.snap();
         // a factory op whose line says `= err` is an `err` line for the model as well
         let line_says_err = w[0] == "fop" && text.trim_end().ends_with("= err");
-        if ok && !line_says_err {
-            let outs = if pays.is_empty() {
-                "pays=-".to_string()
+        // the result line is written AFTER the oracle ledgers were updated by this op (its state part ends with them: `led=`)
+        let emit = |this: &Self, tr: &mut Trace| {
+            if ok && !line_says_err {
+                let outs = if pays.is_empty() {
+                    "pays=-".to_string()
+                } else {
+                    format!("pays={}", pays.iter().map(|(t, a)| format!("{}:{}", t, a)).collect::<Vec<_>>().join(","))
+                };
+                let st = this.state_line(&post);
+                tr.res_ok(n, &outs, &st);
             } else {
-                format!("pays={}", pays.iter().map(|(t, a)| format!("{}:{}", t, a)).collect::<Vec<_>>().join(","))
-            };
-            let st = self.state_line(&post);
-            tr.res_ok(n, &outs, &st);
-        } else {
-            tr.res_err(n);
-        }
+                tr.res_err(n);
+            }
+        };
         if w[0] == "fop" {
+            emit(self, tr);
             // the collector must not be touched by factory operations
             let mut a = pre.clone();
             a.entry = post.entry.clone();
@@ -1261,6 +1274,7 @@ impl World for FeesWorld {
             }
         }
         self.oracles_after(tr, &site, &pre, &post, ok);
+        emit(self, tr);
     }
 
     fn query(&mut self, tr: &mut Trace, text: &str) {
